@@ -27,12 +27,15 @@ ASSUME = ['memory model (DESIGN 3.3): all atomics of the protocol are SeqCst exc
 
 def run(ctx):
     ctx.trusted_base, ctx.assumptions = TB, ASSUME
-    if not ctx.harness(['ls_iter', 'p_closeafter', 'sh_probe']):
+    if not ctx.harness(['ls_iter', 'p_closeafter', 'p_nested_close', 'sh_probe']):
         return
     ctx.translate(COMPONENTS)
     ctx.prove('props/C11.v')
     L.lockstep(ctx, [L.mon_c11], ['c11'])
     async_probe(ctx)
+    L.close_sweep(ctx, L.C11_KINDS)
+    ctx.coverage['rule_close_sweep'] = ('close() at every instruction boundary of wait() / forever().next() / one poll_signal with a recording non-blocking callback '
+                                        '(fork per boundary): Pending only with an armed wake-up, is_closed sticky, every later call comes back, forever ends, the poller reaches Closed')
     # "once close has been called ..." holds in every history of the instance, also after additions that were refused
     import c12
     c12.close_after_rejection(ctx)
@@ -94,6 +97,12 @@ def async_probe(ctx):
 def replay(ctx, path):
     case = json.load(open(path))
     sc = case.get('case', {}).get('scenario')
+    if case.get('case', {}).get('close_sweep'):
+        return L.close_replay(ctx, case['case'], L.C11_KINDS)
+    if case.get('case', {}).get('replay', '').endswith('p_closeafter'):
+        print('run:', case['case']['replay'])
+        import subprocess
+        return subprocess.call(case['case']['replay'], shell=True, cwd=common.ROOT)
     if not sc:
         print('replay file names no concrete input:', json.dumps(case.get('broken'), indent=1)[:2000])
         return 1
